@@ -95,7 +95,7 @@ pub fn valve_seed_transport(e: EngineCfg, s: &rv::State) -> rv::Transport {
             rv::Framing::Source {
                 cuts: vec![len / 2],
                 compressed: false,
-                size_field: true,
+                size_field: true, exact_size: false,
                 id,
             }
         }
